@@ -85,9 +85,32 @@ thread_local! {
     static REUSE_OPTIONS: Cell<bool> = const { Cell::new(false) };
     static PERSISTENT_OPTIONS: std::cell::RefCell<Option<Options<'static>>> = const { std::cell::RefCell::new(None) };
 }
+thread_local! {
+    // Re-entrancy: at its k-th invocation, caller-supplied code makes a library call
+    // of its own (a fault-free call with built-in options on a fresh copy of a text)
+    // before returning to the library frame that called it.
+    static REENTER: std::cell::RefCell<Option<(i64, Call, String)>> = const { std::cell::RefCell::new(None) };
+    static REENTER_OUT: std::cell::RefCell<Option<(Call, Outcome)>> = const { std::cell::RefCell::new(None) };
+}
 const INJECTED: &str = "injected fault in caller-supplied code";
 fn tick() {
     TICKS.with(|t| t.set(t.get() + 1));
+    let due = REENTER.with(|r| {
+        let mut r = r.borrow_mut();
+        match r.as_mut() {
+            Some((k, _, _)) if *k <= 0 => r.take(),
+            Some((k, _, _)) => {
+                *k -= 1;
+                None
+            }
+            None => None,
+        }
+    });
+    if let Some((_, call, text)) = due {
+        let mut fresh = text;
+        let out = run_nested(&call, &mut fresh, &[]);
+        REENTER_OUT.with(|o| *o.borrow_mut() = Some((call, out)));
+    }
     COUNTDOWN.with(|c| {
         let v = c.get();
         if v == 0 {
@@ -162,10 +185,13 @@ impl Fragment for UserFragment {
         tick();
         self.width
     }
+    // all three methods are caller-supplied code: each is a fault site
     fn whitespace_width(&self) -> f64 {
+        tick();
         self.whitespace
     }
     fn penalty_width(&self) -> f64 {
+        tick();
         self.penalty
     }
 }
@@ -315,7 +341,7 @@ const KINDS: [Kind; 15] = [
 /// Entry points whose result a property observes.
 fn kinds_of(prop: &str) -> &'static [Kind] {
     match prop {
-        "C03" => &[Kind::Fragments],
+        "C03" => &[Kind::Fragments, Kind::CustomFragments],
         "C05" => &[Kind::Wrap, Kind::Fill],
         "C07" => &[Kind::Wrap, Kind::Fill, Kind::Fragments, Kind::CustomFragments, Kind::AlgWrap],
         "C10" => &[Kind::DisplayWidth],
@@ -334,9 +360,45 @@ struct Call {
     text: usize, // index into the run's text pool; the key uses the text's VALUE
     opt: Opt,
     fault_at: i64, // -1: none; k: panic at the k-th invocation of caller-supplied code
+    /// HOW the caller consumes a lazy iterator the library returned (`find_words`,
+    /// `split_words`): pull `pulls` items, then (with the iterator still alive) make
+    /// the `nested` call if there is one, then either drain the rest or drop the
+    /// iterator undrained.  Not an argument: only `drop_early` enters the key (the
+    /// pinned value is then the first `pulls` items).
+    hold: Option<Hold>,
+    /// A second library call made by the same thread WHILE this one is in progress:
+    /// between pulls of a held iterator (`hold`), or from inside caller-supplied code
+    /// at its `reenter_at`-th invocation (re-entrancy).  Always fault-free, built-in
+    /// options, on a fresh copy of its text.  Not part of the key.
+    nested: Option<Box<Call>>,
+    reenter_at: i64,
+}
+#[derive(Clone, Debug, PartialEq, Eq, PartialOrd, Ord)]
+struct Hold {
+    pulls: usize,
+    drop_early: bool,
+}
+impl Call {
+    fn plain(kind: Kind, text: usize, opt: Opt, fault_at: i64) -> Call {
+        Call { kind, text, opt, fault_at, hold: None, nested: None, reenter_at: -1 }
+    }
+    /// The call as the reference pass makes it: alone (nothing nested).
+    fn alone(&self) -> Call {
+        let mut c = self.clone();
+        c.nested = None;
+        c.reenter_at = -1;
+        if !matches!(c.hold, Some(Hold { drop_early: true, .. })) {
+            c.hold = None;
+        }
+        c
+    }
 }
 fn key_of(c: &Call, texts: &[String]) -> String {
-    format!("{:?}|{:?}|fault={}|{:?}", c.kind, c.opt, c.fault_at, texts[c.text])
+    let mut k = format!("{:?}|{:?}|fault={}|{:?}", c.kind, c.opt, c.fault_at, texts[c.text]);
+    if let Some(Hold { pulls, drop_early: true }) = &c.hold {
+        let _ = write!(k, "|first={pulls}");
+    }
+    k
 }
 
 // ---------------------------------------------------------------------------
@@ -346,6 +408,36 @@ struct Outcome {
     full: String,
     /// (property, pinned value) for each property that observes this call and whose domain contains it
     obs: Vec<(&'static str, String)>,
+    /// the call made while this one was in progress, and what it returned
+    nested: Option<Box<(Call, Outcome)>>,
+}
+
+/// Consumes a lazy iterator the library returned the way `hold` says (see `Call::hold`).
+fn pull_held<'a, I: Iterator<Item = Word<'a>>>(mut it: I, c: &Call, texts: &[String]) -> Vec<Word<'a>> {
+    let mut v = Vec::new();
+    match &c.hold {
+        None => v.extend(it),
+        Some(h) => {
+            for _ in 0..h.pulls {
+                match it.next() {
+                    Some(w) => v.push(w),
+                    None => break,
+                }
+            }
+            // the iterator is alive and undrained here
+            if let (Some(nc), true) = (&c.nested, c.reenter_at < 0) {
+                if let Some(t) = texts.get(nc.text) {
+                    let mut fresh = t.clone();
+                    let out = run_nested(nc, &mut fresh, texts);
+                    REENTER_OUT.with(|o| *o.borrow_mut() = Some(((**nc).clone(), out)));
+                }
+            }
+            if !h.drop_early {
+                v.extend(it);
+            } // else: dropped undrained
+        }
+    }
+    v
 }
 
 fn lines_content(lines: &[std::borrow::Cow<'_, str>]) -> String {
@@ -430,6 +522,12 @@ fn penalties_of(o: &Opt) -> Penalties {
 }
 #[cfg(feature = "full")]
 fn arrangement_cost(lines: &[&[Word<'_>]], line_widths: &[f64], p: &Penalties) -> f64 {
+    let vals: Vec<Vec<(f64, f64, f64)>> = lines.iter().map(|l| l.iter().map(|f| (Fragment::width(f), f.whitespace_width(), f.penalty_width())).collect()).collect();
+    cost_of(&vals, line_widths, p)
+}
+/// `lines`: per line, the (width, whitespace width, penalty width) of its fragments.
+#[cfg(feature = "full")]
+fn cost_of(lines: &[Vec<(f64, f64, f64)>], line_widths: &[f64], p: &Penalties) -> f64 {
     let mut cost = 0.0;
     let n = lines.len();
     for (k, line) in lines.iter().enumerate() {
@@ -440,11 +538,11 @@ fn arrangement_cost(lines: &[&[Word<'_>]], line_widths: &[f64], p: &Penalties) -
         let target = line_widths.get(k).or(line_widths.last()).copied().unwrap_or(0.0).max(1.0);
         let mut w = 0.0;
         for (i, f) in line.iter().enumerate() {
-            w += Fragment::width(f);
+            w += f.0;
             if i + 1 < line.len() {
-                w += f.whitespace_width();
+                w += f.1;
             } else {
-                w += f.penalty_width();
+                w += f.2;
             }
         }
         cost += p.nline_penalty as f64;
@@ -455,7 +553,7 @@ fn arrangement_cost(lines: &[&[Word<'_>]], line_widths: &[f64], p: &Penalties) -
         } else if line.len() == 1 && w < target / p.short_last_line_fraction as f64 {
             cost += p.short_last_line_penalty as f64;
         }
-        if line[line.len() - 1].penalty_width() > 0.0 {
+        if line[line.len() - 1].2 > 0.0 {
             cost += p.hyphen_penalty as f64;
         }
     }
@@ -467,7 +565,7 @@ fn builtin(o: &Opt) -> bool {
 }
 
 /// Executes one call on `buf` (caller-owned storage holding the text).
-fn execute(c: &Call, buf: &str, inplace: Option<&mut String>) -> Outcome {
+fn execute(c: &Call, buf: &str, inplace: Option<&mut String>, texts: &[String]) -> Outcome {
     let o = c.opt.build();
     let nofault = c.fault_at < 0;
     let mut obs: Vec<(&'static str, String)> = Vec::new();
@@ -478,7 +576,7 @@ fn execute(c: &Call, buf: &str, inplace: Option<&mut String>) -> Outcome {
             v
         }
         Kind::FindWords => {
-            let words: Vec<Word<'_>> = o.word_separator.find_words(buf).collect();
+            let words: Vec<Word<'_>> = pull_held(o.word_separator.find_words(buf), c, texts);
             let v = words_repr(&words);
             if c.opt.sep < 2 {
                 obs.push(("C11", v.clone()));
@@ -486,8 +584,13 @@ fn execute(c: &Call, buf: &str, inplace: Option<&mut String>) -> Outcome {
             v
         }
         Kind::Words => {
-            let words: Vec<Word<'_>> = o.word_separator.find_words(buf).collect();
-            let split: Vec<Word<'_>> = split_words(words, &o.word_splitter).collect();
+            let split: Vec<Word<'_>> = if c.hold.is_some() {
+                // streamed: both lazy iterators (find_words inside split_words) are held
+                pull_held(split_words(o.word_separator.find_words(buf), &o.word_splitter), c, texts)
+            } else {
+                let words: Vec<Word<'_>> = o.word_separator.find_words(buf).collect();
+                split_words(words, &o.word_splitter).collect()
+            };
             let broken = break_words(split, c.opt.width.min(1 << 20));
             let v = words_repr(&broken);
             if c.opt.sep < 2 && nofault {
@@ -604,17 +707,49 @@ fn execute(c: &Call, buf: &str, inplace: Option<&mut String>) -> Outcome {
                 .map(|w| UserFragment {
                     width: Fragment::width(&w) * scale,
                     whitespace: w.whitespace.len() as f64 * scale,
-                    penalty: if w.word.ends_with('-') { 0.0 } else { scale.min(1.0) },
+                    // (inside C03's domain — unscaled widths — no penalty widths: the property
+                    // requires them not to exceed the width of the fragment that follows)
+                    penalty: if w.word.ends_with('-') || (scale == 1.0 && lw_scale == 1.0) { 0.0 } else { scale.min(1.0) },
                 })
                 .collect();
             let w = c.opt.width.min(1 << 20) as f64 * lw_scale;
             let lws = [w / 2.0, w / 3.0, w, w * 0.75];
             #[cfg(not(feature = "full"))]
             let of = String::from("n/a");
+            // With unscaled (integer) fragment and line widths the call is inside C03's
+            // domain: then it is made on two integer line widths under one of the four
+            // penalty settings, and the cost of what comes back is the pinned value.
+            // (One optimal-fit call per step either way.)
             #[cfg(feature = "full")]
-            let of = match wrap_optimal_fit(&frags, &lws, &Penalties::new()) {
-                Ok(ls) => shape(&ls),
-                Err(_) => String::from("overflow"),
+            let of = if scale == 1.0 && lw_scale == 1.0 {
+                let vals: Vec<(f64, f64, f64)> = frags.iter().map(|f| (f.width, f.whitespace, f.penalty)).collect();
+                let lws2 = [(w / 2.0).floor(), w];
+                let pen = penalties_of(&c.opt);
+                match wrap_optimal_fit(&frags, &lws2, &pen) {
+                    Ok(ls) => {
+                        let mut at = 0;
+                        let lines: Vec<Vec<(f64, f64, f64)>> = ls
+                            .iter()
+                            .map(|l| {
+                                let v = vals[at.min(vals.len())..(at + l.len()).min(vals.len())].to_vec();
+                                at += l.len();
+                                v
+                            })
+                            .collect();
+                        let total: usize = ls.iter().map(|l| l.len()).sum();
+                        let cost = if total == vals.len() { cost_of(&lines, &lws2, &pen) } else { -1.0 };
+                        if nofault {
+                            obs.push(("C03", format!("ucost={cost:?}")));
+                        }
+                        format!("{} ucost={cost:?}", shape(&ls))
+                    }
+                    Err(_) => String::from("overflow"),
+                }
+            } else {
+                match wrap_optimal_fit(&frags, &lws, &Penalties::new()) {
+                    Ok(ls) => shape(&ls),
+                    Err(_) => String::from("overflow"),
+                }
             };
             let ff = shape(&wrap_first_fit(&frags, &lws));
             if nofault {
@@ -636,30 +771,59 @@ fn execute(c: &Call, buf: &str, inplace: Option<&mut String>) -> Outcome {
             v
         }
     };
-    Outcome { full, obs }
+    Outcome { full, obs, nested: None }
 }
 
+fn arm(c: &Call, texts: &[String]) {
+    COUNTDOWN.with(|cd| cd.set(c.fault_at));
+    REENTER_OUT.with(|o| *o.borrow_mut() = None);
+    REENTER.with(|r| {
+        *r.borrow_mut() = match (&c.nested, c.reenter_at >= 0) {
+            (Some(nc), true) => texts.get(nc.text).map(|t| (c.reenter_at, (**nc).clone(), t.clone())),
+            _ => None,
+        }
+    });
+}
+fn disarm(mut out: Outcome) -> Outcome {
+    COUNTDOWN.with(|cd| cd.set(-1));
+    REENTER.with(|r| *r.borrow_mut() = None);
+    out.nested = REENTER_OUT.with(|o| o.borrow_mut().take()).map(Box::new);
+    out
+}
 /// One call as a caller makes it: arm the fault, call, catch an unwind.
 /// `storage` is the caller-owned buffer holding the text.
-fn run_call(c: &Call, storage: &mut String) -> Outcome {
-    COUNTDOWN.with(|cd| cd.set(c.fault_at));
+fn run_call(c: &Call, storage: &mut String, texts: &[String]) -> Outcome {
+    arm(c, texts);
     let r = std::panic::catch_unwind(std::panic::AssertUnwindSafe(|| {
         if c.kind == Kind::FillInplace {
             let copy_of_text = storage.clone(); // `buf` argument is unused by this kind
-            execute(c, &copy_of_text, Some(storage))
+            execute(c, &copy_of_text, Some(storage), texts)
         } else {
-            execute(c, storage.as_str(), None)
+            execute(c, storage.as_str(), None, texts)
         }
     }));
-    COUNTDOWN.with(|cd| cd.set(-1));
-    finish(r)
+    disarm(finish(r))
 }
 /// Same, directly on a shared `&str` (no copy): several threads hand the library the very same bytes.
-fn run_call_shared(c: &Call, text: &str) -> Outcome {
+fn run_call_shared(c: &Call, text: &str, texts: &[String]) -> Outcome {
     debug_assert!(c.kind != Kind::FillInplace);
-    COUNTDOWN.with(|cd| cd.set(c.fault_at));
-    let r = std::panic::catch_unwind(std::panic::AssertUnwindSafe(|| execute(c, text, None)));
-    COUNTDOWN.with(|cd| cd.set(-1));
+    arm(c, texts);
+    let r = std::panic::catch_unwind(std::panic::AssertUnwindSafe(|| execute(c, text, None, texts)));
+    disarm(finish(r))
+}
+/// A call made while another call of the same thread is in progress (see `Call::nested`).
+/// Leaves the outer call's armed fault as it found it.
+fn run_nested(c: &Call, storage: &mut String, texts: &[String]) -> Outcome {
+    let saved = COUNTDOWN.with(|cd| cd.replace(-1));
+    let r = std::panic::catch_unwind(std::panic::AssertUnwindSafe(|| {
+        if c.kind == Kind::FillInplace {
+            let copy_of_text = storage.clone();
+            execute(c, &copy_of_text, Some(storage), texts)
+        } else {
+            execute(c, storage.as_str(), None, texts)
+        }
+    }));
+    COUNTDOWN.with(|cd| cd.set(saved));
     finish(r)
 }
 fn finish(r: std::thread::Result<Outcome>) -> Outcome {
@@ -674,7 +838,7 @@ fn finish(r: std::thread::Result<Outcome>) -> Outcome {
             // A panic is a result like any other: a deterministic one (the pinned
             // wrap_columns underflow, an injected fault) is the same string on every
             // execution of its key.  Pinned values exist only for calls that returned.
-            Outcome { full: format!("PANIC:{msg}"), obs: Vec::new() }
+            Outcome { full: format!("PANIC:{msg}"), obs: Vec::new(), nested: None }
         }
     }
 }
@@ -880,11 +1044,16 @@ fn gen_call_of_kind(rng: &mut Rng, kind: Kind, n_texts: usize) -> Call {
     let fault_at = if opt.uses_callbacks() && matches!(kind, Kind::Wrap | Kind::Fill | Kind::Refill | Kind::Words | Kind::FindWords | Kind::AlgWrap) && rng.chance(1, 2) {
         rng.below(6) as i64
     } else if kind == Kind::CustomFragments && rng.chance(1, 3) {
-        rng.below(12) as i64
+        // early (while the library first visits the fragments) or late (inside the search)
+        if rng.chance(1, 2) {
+            rng.below(12) as i64
+        } else {
+            rng.below(90) as i64
+        }
     } else {
         -1
     };
-    Call { kind, text: rng.below(n_texts), opt, fault_at }
+    Call::plain(kind, rng.below(n_texts), opt, fault_at)
 }
 /// A call inside `prop`'s domain (built-in options, no fault; for C05 a width the text fits).
 fn gen_call_in_domain(rng: &mut Rng, prop: &str, texts: &[String]) -> Call {
@@ -904,6 +1073,11 @@ fn gen_call_in_domain(rng: &mut Rng, prop: &str, texts: &[String]) -> Call {
     }
     if prop == "C07" {
         c.opt.alg = 0;
+    }
+    if prop == "C03" && kind == Kind::CustomFragments {
+        // unscaled fragment widths and line widths (see `execute`)
+        c.opt.ii = [0, 5][rng.below(2)];
+        c.opt.si = [0, 1, 5, 6][rng.below(4)];
     }
     if prop == "C05" {
         // the smallest fitting width, a little above it, or unlimited
@@ -951,6 +1125,19 @@ fn gen_steps(rng: &mut Rng, prop: &str, texts: &[String], workers: usize, len: u
         // Right after a call in which caller code was armed to panic, half of the
         // time the same thread repeats an earlier fault-free call: the comparison
         // "same arguments, before and after a caught fault on this thread".
+        if last_armed && rng.chance(1, 4) {
+            // ... or simply RETRIES the call that failed, this time without the fault
+            if let Some(Step::Call { call: failed, .. }) = steps.last() {
+                let mut call = failed.alone();
+                call.fault_at = -1;
+                call.hold = None;
+                issued.push(call.clone());
+                let storage = [0, 1, 101][rng.below(3)];
+                steps.push(Step::Call { worker: last_worker, storage, call });
+                last_armed = false;
+                continue;
+            }
+        }
         if last_armed && rng.chance(1, 2) {
             let clean: Vec<&Call> = issued.iter().filter(|c| c.fault_at < 0).collect();
             if !clean.is_empty() {
@@ -1009,6 +1196,36 @@ fn gen_steps(rng: &mut Rng, prop: &str, texts: &[String], workers: usize, len: u
         };
         // one call in five is made with the thread's long-lived Options object (+1000)
         let storage = if rng.chance(1, 5) { storage + 1000 } else { storage };
+        let mut call = call;
+        // A second call by the same thread while this one is in progress. It is an
+        // earlier fault-free built-in call of the run (so that it has executions to be
+        // compared with) or a new one in the property's domain.
+        let nested_call = |rng: &mut Rng, issued: &mut Vec<Call>| -> Option<Box<Call>> {
+            let ok = |c: &Call| c.fault_at < 0 && !c.opt.uses_callbacks() && c.kind != Kind::CustomFragments;
+            let clean: Vec<&Call> = issued.iter().filter(|c| ok(c)).collect();
+            if !clean.is_empty() && rng.chance(2, 3) {
+                return Some(Box::new(clean[rng.below(clean.len())].clone()));
+            }
+            let c = gen_call_in_domain(rng, prop, texts);
+            if !ok(&c) {
+                return None;
+            }
+            issued.push(c.clone());
+            Some(Box::new(c))
+        };
+        if matches!(call.kind, Kind::FindWords | Kind::Words) && rng.chance(1, 3) {
+            // the caller keeps the lazy iterator(s) alive across another call, or drops them undrained
+            call.hold = Some(Hold { pulls: rng.below(4), drop_early: rng.chance(1, 4) });
+            if rng.chance(3, 4) {
+                call.nested = nested_call(rng, &mut issued);
+            }
+        } else if (call.opt.uses_callbacks() || call.kind == Kind::CustomFragments) && call.kind != Kind::Unfill && rng.chance(1, 4) {
+            // re-entrancy: caller-supplied code calls the library at its k-th invocation
+            call.nested = nested_call(rng, &mut issued);
+            if call.nested.is_some() {
+                call.reenter_at = rng.below(5) as i64;
+            }
+        }
         last_worker = worker;
         last_armed = call.fault_at >= 0;
         steps.push(Step::Call { worker, storage, call });
@@ -1068,12 +1285,12 @@ fn spawn_worker(shared: Arc<Vec<String>>) -> Worker {
                             let b = &mut bufs[storage];
                             b.clear();
                             b.push_str(&shared[call.text]);
-                            run_call(&call, b)
+                            run_call(&call, b, &shared)
                         }
-                        100 if call.kind != Kind::FillInplace => run_call_shared(&call, shared[call.text].as_str()),
+                        100 if call.kind != Kind::FillInplace => run_call_shared(&call, shared[call.text].as_str(), &shared),
                         _ => {
                             let mut fresh = shared[call.text].clone();
-                            run_call(&call, &mut fresh)
+                            run_call(&call, &mut fresh, &shared)
                         }
                     };
                     REUSE_OPTIONS.with(|r| r.set(false));
@@ -1110,6 +1327,10 @@ struct Stats {
     calls_after_fault_same_thread: u64,
     callback_invocations: u64,
     distinct_call_orders: u64,
+    iterators_held_then_drained: u64,
+    iterators_dropped_undrained: u64,
+    calls_made_while_iterator_held: u64,
+    reentrant_calls_from_caller_code: u64,
 }
 struct Seen {
     value: String,
@@ -1196,59 +1417,82 @@ fn execute_run(
                         faulted[w] = true;
                     }
                 }
-                let Some(value) = observed(prop, call, &out) else { continue };
-                stats.in_domain_executions += 1;
-                let key = key_of(call, texts);
-                let here = format!("run {run} step {i} worker {w} storage {storage}{}", if was_faulted { " (thread has caught a fault)" } else { "" });
-                let ctx = (run, w, storage, was_faulted);
-                match seen.get_mut(&key) {
-                    None => {
-                        stats.distinct_keys += 1;
-                        let mut s = Seen {
-                            value,
-                            first: here,
-                            execs: 1,
-                            threads: BTreeSet::new(),
-                            storages: BTreeSet::new(),
-                            post_fault: BTreeSet::new(),
-                            contexts: BTreeSet::new(),
-                        };
-                        s.threads.insert(w);
-                        s.storages.insert(storage);
-                        s.post_fault.insert(was_faulted);
-                        s.contexts.insert(ctx);
-                        seen.insert(key, s);
+                if let Some(h) = &call.hold {
+                    if h.drop_early {
+                        stats.iterators_dropped_undrained += 1;
+                    } else {
+                        stats.iterators_held_then_drained += 1;
                     }
-                    Some(s) => {
-                        s.execs += 1;
-                        if s.execs == 2 {
-                            stats.keys_executed_2plus += 1;
+                }
+                // the call itself, then the call nested in it (made earlier in time, but
+                // reported second so that a replay reads naturally)
+                let mut todo: Vec<(&Call, &Outcome, &'static str)> = vec![(call, &out, "")];
+                if let Some(n) = &out.nested {
+                    if call.reenter_at >= 0 {
+                        stats.reentrant_calls_from_caller_code += 1;
+                    } else {
+                        stats.calls_made_while_iterator_held += 1;
+                    }
+                    todo.push((&n.0, &n.1, if call.reenter_at >= 0 { " (nested: made from caller-supplied code inside this step's call)" } else { " (nested: made while this step's iterator was held)" }));
+                }
+                for (call, out, how) in todo {
+                    let Some(value) = observed(prop, call, out) else { continue };
+                    stats.in_domain_executions += 1;
+                    let key = key_of(call, texts);
+                    let here = format!("run {run} step {i} worker {w} storage {storage}{}{how}", if was_faulted { " (thread has caught a fault)" } else { "" });
+                    // a nested execution is a context of its own
+                    let ctx = (run, w, if how.is_empty() { storage } else { 5000 + i }, was_faulted);
+                    match seen.get_mut(&key) {
+                        None => {
+                            stats.distinct_keys += 1;
+                            let mut s = Seen {
+                                value,
+                                first: here,
+                                execs: 1,
+                                threads: BTreeSet::new(),
+                                storages: BTreeSet::new(),
+                                post_fault: BTreeSet::new(),
+                                contexts: BTreeSet::new(),
+                            };
+                            s.threads.insert(w);
+                            s.storages.insert(storage);
+                            s.post_fault.insert(was_faulted);
+                            s.contexts.insert(ctx);
+                            seen.insert(key, s);
                         }
-                        if s.threads.insert(w) && s.threads.len() == 2 {
-                            stats.keys_on_2plus_threads += 1;
-                        }
-                        if s.storages.insert(storage) && s.storages.len() == 2 {
-                            stats.keys_in_2plus_storages += 1;
-                        }
-                        if s.post_fault.insert(was_faulted) && s.post_fault.len() == 2 {
-                            stats.keys_before_and_after_fault += 1;
-                        }
-                        if s.contexts.insert(ctx) && s.contexts.len() == 2 {
-                            stats.keys_in_2plus_contexts += 1;
-                        }
-                        if s.value != value {
-                            result = Err(Mismatch {
-                                key,
-                                first: s.first.clone(),
-                                first_value: s.value.clone(),
-                                second: here,
-                                second_value: value,
-                                run,
-                                upto: pos,
-                            });
-                            break;
+                        Some(s) => {
+                            s.execs += 1;
+                            if s.execs == 2 {
+                                stats.keys_executed_2plus += 1;
+                            }
+                            if s.threads.insert(w) && s.threads.len() == 2 {
+                                stats.keys_on_2plus_threads += 1;
+                            }
+                            if s.storages.insert(storage) && s.storages.len() == 2 {
+                                stats.keys_in_2plus_storages += 1;
+                            }
+                            if s.post_fault.insert(was_faulted) && s.post_fault.len() == 2 {
+                                stats.keys_before_and_after_fault += 1;
+                            }
+                            if s.contexts.insert(ctx) && s.contexts.len() == 2 {
+                                stats.keys_in_2plus_contexts += 1;
+                            }
+                            if s.value != value && result.is_ok() {
+                                result = Err(Mismatch {
+                                    key,
+                                    first: s.first.clone(),
+                                    first_value: s.value.clone(),
+                                    second: here,
+                                    second_value: value,
+                                    run,
+                                    upto: pos,
+                                });
+                            }
                         }
                     }
+                }
+                if result.is_err() {
+                    break;
                 }
             }
         }
@@ -1264,10 +1508,20 @@ fn execute_run(
 
 fn step_line(s: &Step, texts: &[String]) -> String {
     match s {
-        Step::Call { worker, storage, call } => format!(
-            "call worker={worker} storage={storage} kind={:?} fault_at={} opt={:?} text={:?}",
-            call.kind, call.fault_at, call.opt, texts[call.text]
-        ),
+        Step::Call { worker, storage, call } => {
+            let mut l = format!(
+                "call worker={worker} storage={storage} kind={:?} fault_at={} opt={:?} text={:?}",
+                call.kind, call.fault_at, call.opt, texts[call.text]
+            );
+            if let Some(h) = &call.hold {
+                let _ = write!(l, " [iterator: {} item(s) pulled, then {}]", h.pulls, if h.drop_early { "dropped undrained" } else { "held, later drained" });
+            }
+            if let Some(nc) = &call.nested {
+                let when = if call.reenter_at >= 0 { format!("from caller-supplied code at its invocation {}", call.reenter_at) } else { "while the iterator is held".to_string() };
+                let _ = write!(l, "\n         + nested call {when}: kind={:?} opt={:?} text={:?}", nc.kind, nc.opt, texts[nc.text]);
+            }
+            l
+        }
         Step::Restart { worker } => format!("restart worker={worker}"),
     }
 }
@@ -1282,7 +1536,10 @@ fn cold_calls(plans: &[RunPlan]) -> Vec<(String, Call, String)> {
     for p in plans {
         for s in &p.steps {
             if let Step::Call { call, .. } = s {
-                calls.entry(key_of(call, &p.texts)).or_insert_with(|| (call.clone(), p.texts[call.text].clone()));
+                calls.entry(key_of(call, &p.texts)).or_insert_with(|| (call.alone(), p.texts[call.text].clone()));
+                if let Some(nc) = &call.nested {
+                    calls.entry(key_of(nc, &p.texts)).or_insert_with(|| (nc.alone(), p.texts[nc.text].clone()));
+                }
             }
         }
     }
@@ -1300,7 +1557,7 @@ fn cold_pass(prop: &str, plans: &[RunPlan], window: Option<(String, usize)>) -> 
     let mut out = Vec::new();
     for (k, call, text) in &calls[from..to] {
         let mut fresh = text.clone();
-        let o = run_call(call, &mut fresh);
+        let o = run_call(call, &mut fresh, &[]);
         if let Some(v) = observed(prop, call, &o) {
             out.push((k.clone(), v));
         }
@@ -1336,7 +1593,10 @@ fn parallel_pass(prop: &str, seed: u64) -> Result<String, String> {
     }
     fn wide_word(rng: &mut Rng) -> String {
         let mut w = String::new();
-        for _ in 0..(1 + rng.below(2)) {
+        // one word in eight is long and unbreakable (16-40 bytes): force-breaking, long
+        // keys, per-word state that only exists beyond a size threshold
+        let long = rng.chance(1, 8);
+        for _ in 0..(if long { 8 + rng.below(6) } else { 1 + rng.below(2) }) {
             w.push(wide_char(rng));
         }
         if rng.chance(1, 4) {
@@ -1397,17 +1657,34 @@ fn parallel_pass(prop: &str, seed: u64) -> Result<String, String> {
     let run_one = |c: &Call, texts: &Arc<Vec<String>>| -> Option<String> {
         let out = if c.kind == Kind::FillInplace {
             let mut own = texts[c.text].clone();
-            run_call(c, &mut own)
+            run_call(c, &mut own, &[])
         } else {
-            run_call_shared(c, texts[c.text].as_str())
+            run_call_shared(c, texts[c.text].as_str(), &[])
         };
         observed(prop, c, &out)
     };
-    let reference: Vec<Option<String>> = pool.iter().map(|c| run_one(c, &texts)).collect();
+    // The reference values. `--reference-only`: print them and stop (the driver runs
+    // this natively in a fresh single-threaded process and hands the hashes to the
+    // interpreter runs as `--expect-ref`). Otherwise `--warm 1` computes them on the
+    // main thread BEFORE any other thread exists (every lazily filled table or memo
+    // the calls touch is then warm when the threads start), `--warm 0` only AFTER all
+    // threads have finished (the threads meet the library cold: first-touch races).
+    let hash_of = |v: &Option<String>| format!("{:016x}", fnv(v.as_deref().unwrap_or("<none>")));
+    if has("--reference-only") {
+        let r: Vec<String> = pool.iter().map(|c| hash_of(&run_one(c, &texts))).collect();
+        return Ok(format!("REFERENCE {}", r.join(",")));
+    }
+    let expected: Option<Vec<String>> = arg_val("--expect-ref").map(|e| e.split(',').map(|x| x.to_string()).collect());
+    let warm = arg_val("--warm").map_or(true, |w| w != "0");
+    let before: Option<Vec<Option<String>>> = if warm { Some(pool.iter().map(|c| run_one(c, &texts)).collect()) } else { None };
     let threads = 2 + rng.below(2);
     // thread t starts with call t (so the first, cache-filling calls of different
-    // threads differ and overlap), then draws
-    let plans: Vec<Vec<usize>> = (0..threads).map(|t| (0..5).map(|k| if k == 0 { t % pool.len() } else { rng.below(pool.len()) }).collect()).collect();
+    // threads differ and overlap), then draws; in the cold mode all threads start
+    // with the SAME call half of the time (two threads meeting the same untouched entry)
+    let same_start = !warm && rng.chance(1, 2);
+    let plans: Vec<Vec<usize>> = (0..threads)
+        .map(|t| (0..5).map(|k| if k == 0 { if same_start { 0 } else { t % pool.len() } } else { rng.below(pool.len()) }).collect())
+        .collect();
     let pool = Arc::new(pool);
     let barrier = Arc::new(std::sync::Barrier::new(threads));
     let handles: Vec<_> = plans
@@ -1422,9 +1699,9 @@ fn parallel_pass(prop: &str, seed: u64) -> Result<String, String> {
                         let c = &pool[i];
                         let out = if c.kind == Kind::FillInplace {
                             let mut own = texts[c.text].clone();
-                            run_call(c, &mut own)
+                            run_call(c, &mut own, &[])
                         } else {
-                            run_call_shared(c, texts[c.text].as_str())
+                            run_call_shared(c, texts[c.text].as_str(), &[])
                         };
                         (i, out)
                     })
@@ -1433,22 +1710,48 @@ fn parallel_pass(prop: &str, seed: u64) -> Result<String, String> {
         })
         .collect();
     let mut execs = 0;
+    let mut got: Vec<(usize, usize, Option<String>)> = Vec::new();
     for (t, h) in handles.into_iter().enumerate() {
         for (i, out) in h.join().map_err(|_| "worker panicked outside a library call".to_string())? {
             execs += 1;
-            let v = observed(prop, &pool[i], &out);
-            if v != reference[i] {
-                return Err(format!(
-                    "SCHEDULE-DEPENDENT property={prop} seed={seed} thread={t} key={:?}\n  before any other thread existed -> {:?}\n  under this interleaving        -> {:?}\n  plans={plans:?}",
-                    key_of(&pool[i], &texts),
-                    reference[i],
-                    v
-                ));
+            got.push((t, i, observed(prop, &pool[i], &out)));
+        }
+    }
+    let after: Vec<Option<String>> = pool.iter().map(|c| run_one(c, &texts)).collect();
+    let report = |t: String, i: usize, what: &str, a: &Option<String>, b: &Option<String>| -> String {
+        format!(
+            "SCHEDULE-DEPENDENT property={prop} seed={seed} warm={} {t} key={:?}\n  {what} -> {:?}\n  under this interleaving -> {:?}\n  plans={plans:?}",
+            warm as u8,
+            key_of(&pool[i], &texts),
+            a,
+            b
+        )
+    };
+    for (t, i, v) in &got {
+        if let Some(b) = &before {
+            if *v != b[*i] {
+                return Err(report(format!("thread={t}"), *i, "before any other thread existed", &b[*i], v));
+            }
+        }
+        if *v != after[*i] {
+            return Err(report(format!("thread={t}"), *i, "on the main thread after all threads had finished", &after[*i], v));
+        }
+        if let Some(e) = &expected {
+            if e.get(*i).map_or(false, |h| *h != hash_of(v)) {
+                return Err(report(format!("thread={t}"), *i, "alone in a fresh single-threaded process (value hash)", &Some(e[*i].clone()), &Some(format!("{} = {:?}", hash_of(v), v))));
+            }
+        }
+    }
+    if let Some(e) = &expected {
+        for (i, a) in after.iter().enumerate() {
+            if e.get(i).map_or(false, |h| *h != hash_of(a)) {
+                return Err(report("main-thread-after-the-race".into(), i, "alone in a fresh single-threaded process (value hash)", &Some(e[i].clone()), &Some(format!("{} = {:?}", hash_of(a), a))));
             }
         }
     }
     Ok(format!(
-        "parallel pass: property {prop} seed {seed} threads {threads} distinct_keys {} concurrent_executions {execs}",
+        "parallel pass: property {prop} seed {seed} warm {} threads {threads} distinct_keys {} concurrent_executions {execs}",
+        warm as u8,
         pool.len()
     ))
 }
@@ -1544,11 +1847,13 @@ fn main() {
                 "STATS property {prop} seed {seed} runs {} calls {} in_domain_executions {} distinct_keys {} keys_executed_2plus {} keys_in_2plus_contexts {} \
                  keys_on_2plus_threads {} keys_in_2plus_storages {} keys_before_and_after_fault {} buffer_reuses_new_contents {} shared_buffer_calls {} calls_with_reused_options_object {} \
                  worker_restarts {} faults_armed {} faults_fired {} calls_after_fault_same_thread {} callback_invocations {} distinct_call_orders {} \
+                 iterators_held_then_drained {} iterators_dropped_undrained {} calls_made_while_iterator_held {} reentrant_calls_from_caller_code {} \
                  library_internal_scheduling_points 0",
                 stats.runs, stats.calls, stats.in_domain_executions, stats.distinct_keys, stats.keys_executed_2plus, stats.keys_in_2plus_contexts,
                 stats.keys_on_2plus_threads, stats.keys_in_2plus_storages, stats.keys_before_and_after_fault, stats.buffer_reuses_new_contents,
                 stats.shared_buffer_calls, stats.calls_with_reused_options_object, stats.worker_restarts, stats.faults_armed, stats.faults_fired, stats.calls_after_fault_same_thread,
-                stats.callback_invocations, stats.distinct_call_orders
+                stats.callback_invocations, stats.distinct_call_orders,
+                stats.iterators_held_then_drained, stats.iterators_dropped_undrained, stats.calls_made_while_iterator_held, stats.reentrant_calls_from_caller_code
             );
             // a few keys that were compared across contexts, written out
             let mut shown = 0;
